@@ -61,8 +61,16 @@ example : -- non-vacuity: a heartbeat of "a" in a ring that also holds "b" write
 
 /-! ### 2.–4. state edges, heartbeat, registration time: every schedule of a full Lifecycler -/
 
-/-- For every schedule (own handlers in any order incl. restarts and kills, environment steps obeying the
-frame, clock not going backwards, store accepting writes) started from a process that has not run yet,
+/-- SCOPE of the schedule theorems below (`state_edges`, `heartbeat_monotone`, `registered_once`, `world_entry_evolution`,
+`loop_entry_evolution`): full Lifecycler only (`hk`); the store ACCEPTS every write (`RunOK`/`LGood` demand `fault = .none`
+— with a rejected commit the table is NOT kept, see `rejected_commit_breaks_table_witness`; faults are C09's subject);
+a claim is issued by an instance whose own entry is in the ring (otherwise see `claim_without_own_entry_witness`); and
+they compare two CONSECUTIVE versions that both contain the entry: the environment may delete the entry, after which
+the chain starts afresh (new registration time, whatever state the lifecycler remembers) — the statements hold per
+maximal interval of presence.
+
+For every such schedule (own handlers in any order incl. restarts and kills, environment steps obeying the
+frame, clock not going backwards) started from a process that has not run yet,
 two consecutive versions of the own entry satisfy: the state is unchanged, moves along an edge of
 `changeState`'s table {P→J, J→P, J→A, P→A, A→L}, or is the restart edge L→A. -/
 theorem state_edges (c : Cfg) (hk : c.kind = .LC) (store : Option Desc) (file : File) (clock : Int)
@@ -88,6 +96,18 @@ theorem heartbeat_refreshes (c : Cfg) (l : Local) (file : File) (din : Option De
     (hs : l.started = true) :
     ∃ d' b, (step c l file din .heartbeat now gen .none).out = .write d' ∧ Desc.get? d' c.id = some b ∧ b.ts = now :=
   PfC08.heartbeat_refreshes hs
+
+/-- ... and the heartbeat tick is SERVED in every control state in which the real code has a ticker case: full Lifecycler
+running or stopping (except inside the observe-timer iteration between `verifyTokens` and `changeState(ACTIVE)`),
+BasicLifecycler inside `waitStableTokens`, running, stopping. NOT modelled: while `autoJoin` sits in
+`waitBeforeJoining` (can-join generators, up to the can-join timeout) the real loop serves no heartbeat; the ticker
+periods themselves are only checked by the real-time glue stream. -/
+theorem heartbeat_enabled (unregister : Bool) (c : Cfg) (ctl : Ctl) (l : Local) (file : File) (store : Option Desc) (now : Int) (gen : Gen)
+    (h : match c.kind with
+      | .LC => (ctl.phase = .running ∨ ctl.phase = .stopping) ∧ ctl.pending = false
+      | .BLC => (ctl.phase = .starting ∧ ctl.observeArmed = true) ∨ ctl.phase = .running ∨ ctl.phase = .stopping) :
+    loopNext unregister c ctl l file store .heartbeat now gen = some (.own .heartbeat now gen .none, ctl) :=
+  PfC08.heartbeat_enabled unregister c ctl l file store now gen h
 
 /-- The registration timestamp of the own entry is never changed once the entry exists. -/
 theorem registered_once (c : Cfg) (hk : c.kind = .LC) (store : Option Desc) (file : File) (clock : Int)
@@ -179,7 +199,10 @@ theorem nobody_started_registered (s : LSys) (h : ∀ i, (s.ctl i).phase = .new)
   rw [h i] at hal
   rcases hal with h1 | h1 | h1 <;> cases h1
 
-/-- `ready_implies_active` at full strength for the loops: in every valid loop schedule in which nobody removes other
+/-- `ready_implies_active` for the loops, under the guards spelled out in its hypotheses — the store accepts the writes
+(`LRunKeeps` ⊇ `LGood`), nobody removes other instances' entries (`NoRemoval`: no foreign removal, no auto-forget hit),
+and the two invariants hold initially (they do when nobody has started: `nobody_started_registered`); without the
+removal guard the statement is false (`ready_without_entry_witness`): in every valid loop schedule in which nobody removes other
 instances' entries (so `ready_without_entry_witness` cannot arise), a `CheckReady` of a full Lifecycler whose service
 is alive that answers ok for the first time finds the lifecycler ACTIVE and holding tokens. (`hR`, `hS` hold when nobody
 has started: `nobody_started_registered`, and trivially for `StartedInv`.) -/
@@ -189,6 +212,33 @@ theorem ready_implies_active (unreg : Nat → Bool) (s : LSys) (as : List LAct) 
     (hnot : nd.l.ready = false) (h : (lcCheckReady nd.cfg nd.l (lrun unreg s as).w.store now getFails).2 = .ok) :
     nd.l.state = .ACTIVE ∧ nd.l.tokens ≠ [] :=
   PfC08.ready_active_loops unreg s as hw hR hS hr i nd hnd hk hal now getFails hnot h
+
+example : -- non-vacuity of `ready_implies_active`: all hypotheses and `CheckReady = ok` hold together on a real run
+    let nd : Node := { cfg := { id := "a", numTokens := 1 } }
+    let s0 : LSys := { w := { store := none, nodes := [nd], clock := 1 } }
+    let u : Nat → Bool := fun _ => true
+    let g : Gen := fun _ _ => [3]
+    let acts := [LAct.loop 0 (.start []) 2 g, .loop 0 .joinTimer 3 g]
+    WInv s0.w ∧ RegInv s0 ∧ StartedInv s0 ∧ LRunKeeps u s0 acts ∧
+    (∃ nd', (lrun u s0 acts).w.nodes[0]? = some nd' ∧ nd'.cfg.kind = .LC ∧ Alive ((lrun u s0 acts).ctl 0).phase ∧
+      nd'.l.ready = false ∧ (lcCheckReady nd'.cfg nd'.l (lrun u s0 acts).w.store 4 false).2 = .ok ∧ nd'.l.state = .ACTIVE) := by
+  intro nd s0 u g acts
+  refine ⟨?_, ?_, ?_, ?_, ?_⟩
+  · apply winv_init
+    · exact List.Pairwise.nil
+    · intro i j ndi ndj hi hj hij
+      cases i <;> cases j <;> simp_all [s0]
+    · intro i nd' h; cases i <;> simp [s0, nd] at h; subst h; rfl
+    · intro i nd' h e he; simp [s0] at he; exact absurd he (by simp [Desc.get?])
+  · exact nobody_started_registered s0 (fun _ => rfl)
+  · intro i nd' _ hal; rcases hal with h | h | h <;> cases h
+  · simp only [acts, LRunKeeps, LGood, NoRemoval]
+    refine ⟨⟨by decide, ?_⟩, ?_, ⟨by decide, ?_⟩, ?_, trivial⟩
+    · intro _ _ _ h; cases h
+    · intro _ _ _ h; cases h
+    · intro _ _ _ h; cases h
+    · intro _ _ _ h; cases h
+  · refine ⟨_, rfl, by decide, Or.inr (Or.inl (by decide)), by decide, by decide, by decide⟩
 
 /-- Stopping, full Lifecycler: on `ctx.Done()` a running ACTIVE lifecycler leaves the loop and what it writes is its own
 entry in state LEAVING with the ring's tokens. -/
@@ -200,6 +250,18 @@ theorem stop_publishes_leaving (unregister : Bool) (c : Cfg) (ctl : Ctl) (l : Lo
     ∃ b, (step c l file store (.changeState .LEAVING) now gen .none).out = .write (put (store.getD []) b) ∧
       b.id = c.id ∧ b.state = .LEAVING ∧ (∀ e, Desc.get? (store.getD []) c.id = some e → b.tokens = e.tokens) :=
   PfC08.lc_stop_leaving hk hp hpend hs ha
+
+/-- Stopping a full Lifecycler that is NOT ACTIVE (PENDING, JOINING, already LEAVING): `changeState(LEAVING)` is refused (the
+error is only logged), nothing is written and the lifecycler keeps its state through `stopping()`; its entry is then
+removed or kept by `stop_done_per_config` — "removal possible from any of them on shutdown". -/
+theorem stop_from_nonactive_keeps_state (unregister : Bool) (c : Cfg) (ctl : Ctl) (l : Local) (file : File) (store : Option Desc)
+    (now : Int) (gen : Gen) (hk : c.kind = .LC) (hp : ctl.phase = .running) (hpend : ctl.pending = false)
+    (hs : l.started = true) (ha : l.state ≠ .ACTIVE) :
+    loopNext unregister c ctl l file store .stop now gen =
+      some (.own (.changeState .LEAVING) now gen .none, { ctl with phase := .stopping }) ∧
+    (step c l file store (.changeState .LEAVING) now gen .none).out = .noCas ∧
+    (step c l file store (.changeState .LEAVING) now gen .none).l = l :=
+  PfC08.lc_stop_nonactive hk hp hpend hs ha
 
 /-- Stopping, BasicLifecycler with the LeaveOnStopping delegate: afterwards the registered entry is LEAVING, tokens and
 registration time kept. -/
@@ -258,6 +320,55 @@ theorem basic_register_edge_witness :
     ¬ (State.ACTIVE = State.JOINING ∨ allowed .ACTIVE .JOINING = true ∨ (State.ACTIVE = State.LEAVING ∧ State.JOINING = State.ACTIVE)) := by
   decide
 
+/-- WITNESS for the hypothesis "the store accepts the writes": `changeState(ACTIVE)` whose commit is rejected leaves the
+lifecycler ACTIVE while the ring still shows PENDING (`setState` precedes `updateConsul`); the `changeState(LEAVING)` of
+shutdown is then accepted and publishes PENDING→LEAVING, an edge outside the table. -/
+theorem rejected_commit_breaks_table_witness :
+    let c : Cfg := { id := "a", numTokens := 1 }
+    let l : Local := { started := true, state := .PENDING }
+    let d : Desc := [{ id := "a", ts := 1, state := .PENDING }]
+    let r1 := step c l .absent (some d) (.changeState .ACTIVE) 2 (fun _ _ => []) .failCommit
+    let r2 := step c r1.l r1.file (commit (some d) r1 .failCommit) (.changeState .LEAVING) 3 (fun _ _ => []) .none
+    commit (some d) r1 .failCommit = some d ∧ r1.l.state = .ACTIVE ∧
+    r2.out = .write [{ id := "a", ts := 3, state := .LEAVING }] ∧ allowed .PENDING .LEAVING = false := by
+  decide
+
+/-- WITNESS for the hypothesis "a claim is issued by a registered instance": `ClaimTokensFor` of a JOINING lifecycler
+(registered at 5) whose own entry is missing works on Go's zero value: it publishes an entry in state ACTIVE with empty
+address and zone and registration time 0, and nothing refreshes the registration time afterwards (the entry exists). -/
+theorem claim_without_own_entry_witness :
+    let c : Cfg := { id := "a", addr := "h:1", zone := "z", numTokens := 1 }
+    let l : Local := { started := true, state := .JOINING, regTs := 5 }
+    let d : Desc := [{ id := "old", state := .LEAVING, tokens := [5] }]
+    (step c l .absent (some d) (.claim "old") 9 (fun _ _ => []) .none).out =
+      .write [{ id := "a", addr := "", zone := "", ts := 9, state := .ACTIVE, tokens := [5], regTs := 0 },
+              { id := "old", state := .LEAVING, tokens := [] }] := by
+  decide
+
+/-- first registration (own entry not in the ring), full Lifecycler: registered NOW; the tokens of the tokens file are
+published and remembered as they are (sorted on load), ACTIVE at once iff there are at least `numTokens` of them,
+PENDING otherwise (in particular without a file). -/
+theorem first_registration (c : Cfg) (l : Local) (file : File) (din : Option Desc) (shuf : List Nat) (now : Int) (gen : Gen)
+    (fault : Fault) (hk : c.kind = .LC) (hf : fault ≠ .failBefore) (habs : Desc.get? (din.getD []) c.id = none) :
+    let r := step c l file din (.init shuf) now gen fault
+    let ft := if c.hasFile then file.load.getD [] else []
+    ∃ b, r.out = .write (put (din.getD []) b) ∧ b.id = c.id ∧ b.regTs = now ∧ b.ts = now ∧ b.tokens = ft ∧
+      b.state = (if 0 < ft.length ∧ c.numTokens ≤ ft.length then .ACTIVE else .PENDING) ∧
+      r.l.tokens = ft ∧ r.l.state = b.state ∧ r.l.regTs = now :=
+  PfC08.lc_first_registration hk hf habs
+
+example : -- non-vacuity: tokens file [9,4] (unsorted on disk), 2 tokens wanted: ACTIVE at once with [4,9]
+    (step { id := "a", numTokens := 2, hasFile := true } {} (.tokens [9, 4]) none (.init []) 7 (fun _ _ => []) .none).out =
+      .write [{ id := "a", ts := 7, state := .ACTIVE, tokens := [4, 9], regTs := 7 }] := by
+  decide
+
+/-- first registration, BasicLifecycler: registered now, in the configured register state. -/
+theorem basic_first_registration (c : Cfg) (l : Local) (file : File) (din : Option Desc) (shuf : List Nat) (now : Int) (gen : Gen)
+    (fault : Fault) (hk : c.kind = .BLC) (hf : fault ≠ .failBefore) (habs : Desc.get? (din.getD []) c.id = none) :
+    ∃ b, (step c l file din (.init shuf) now gen fault).out = .write (put (din.getD []) b) ∧ b.id = c.id ∧ b.regTs = now ∧
+      b.ts = now ∧ b.state = c.registerState :=
+  PfC08.blc_first_registration hk hf habs
+
 /-! ### 5. tokens at activation -/
 
 /-- Join timer of a PENDING full lifecycler whose generator honours its contract: the entry is published
@@ -275,6 +386,33 @@ theorem activation_tokens (c : Cfg) (l : Local) (file : File) (din : Option Desc
       (∀ t ∈ tokensOf (din.getD []) c.id, t ∈ b.tokens) ∧
       (∀ t ∈ b.tokens, t ∈ tokensOf (din.getD []) c.id ∨ ∀ i ∈ din.getD [], t ∉ i.tokens) :=
   PfC08.lc_join_tokens hk hs hp hg hf hnd hle
+
+/-- `verifyTokens` finding the ring's tokens different from the remembered ones (token conflict resolution, a lost ring):
+the ring's tokens of the own entry are kept, topped up to exactly `numTokens` strictly sorted tokens with tokens that are
+in NO instance's list, published in the remembered state and remembered; the observe timer is re-armed (answer `no`). -/
+theorem verify_regenerates_full_tokens (c : Cfg) (l : Local) (file : File) (din : Option Desc) (now : Int) (gen : Gen)
+    (hk : c.kind = .LC) (hs : l.started = true) (hg : GenOK gen)
+    (hne : sortNat (tokensOf (din.getD []) c.id) ≠ sortNat l.tokens)
+    (hnd : (tokensOf (din.getD []) c.id).Nodup) (hle : (tokensOf (din.getD []) c.id).length ≤ c.numTokens) :
+    ∃ d' b, (step c l file din .verify now gen .none).out = .write d' ∧ Desc.get? d' c.id = some b ∧
+      (step c l file din .verify now gen .none).ret = .no ∧
+      b.state = l.state ∧ (step c l file din .verify now gen .none).l.tokens = b.tokens ∧
+      b.tokens.length = c.numTokens ∧ b.tokens.Pairwise (· < ·) ∧
+      (∀ t ∈ tokensOf (din.getD []) c.id, t ∈ b.tokens) ∧
+      (∀ t ∈ b.tokens, t ∈ tokensOf (din.getD []) c.id ∨ ∀ i ∈ din.getD [], t ∉ i.tokens) :=
+  PfC08.lc_verify_tokens hk hs hg hne hnd hle
+
+/-- Every write through `updateConsul` — heartbeat, `changeState` (in particular the JOINING→ACTIVE activation at the end of
+the observe period) and the read-only toggle — republishes the tokens the ring records for the own entry, whatever the
+store then does with the write. Hence the tokens at the moment of activation in observe mode are those of the join /
+the last verification (`activation_tokens`, `verify_regenerates_full_tokens`) unless somebody else changed them. -/
+theorem update_keeps_ring_tokens (c : Cfg) (l : Local) (file : File) (din : Option Desc) (ev : Event) (now : Int) (gen : Gen)
+    (fault : Fault) (e b : Inst) (d' : Desc) (hk : c.kind = .LC)
+    (hev : ev = .heartbeat ∨ (∃ s, ev = .changeState s) ∨ ∃ r, ev = .changeRO r)
+    (he : Desc.get? (din.getD []) c.id = some e)
+    (h : (step c l file din ev now gen fault).out = .write d') (hb : Desc.get? d' c.id = some b) :
+    b.tokens = e.tokens :=
+  PfC08.lc_update_keeps_ring_tokens hk hev he h hb
 
 /-- BasicLifecycler registration with a generator honouring its contract: exactly `numTokens` strictly sorted tokens;
 the inherited ones (from the ring entry OR the tokens file) are kept; every new token is neither inherited nor in
